@@ -155,7 +155,7 @@ static void vtmf_game(const Args &A, bool qr_group, unsigned long fsize, unsigne
 }
 
 static void section_vtmf(const Args &A) {
-	const unsigned N = A.thorough() ? 120 : 14;
+	const unsigned N = A.thorough() ? 50 : 14;
 	for (unsigned i = 0; i < N; i++) {
 		bool qr = (i % 3 == 2);
 		bool canonical = (i % 3 == 1);
@@ -259,7 +259,7 @@ static void tmcg_game(const Args &A, unsigned long keysize, size_t k, size_t w, 
 }
 
 static void section_tmcg(const Args &A) {
-	const unsigned N = A.thorough() ? 60 : 8;
+	const unsigned N = A.thorough() ? 24 : 8;
 	for (unsigned i = 0; i < N; i++) {
 		static const unsigned long KS[] = { 432, 440, 448, 480, 512 };   // the self-signature needs mnsize > mdsize + TMCG_PRAB_K0
 		size_t k = 1 + gen().below(5), w = 1 + gen().below(TMCG_MAX_TYPEBITS);
